@@ -100,7 +100,9 @@ CalcPad(p) ==
         LET tot == NeededTotal(p.rl, p.s, KD(p))
             bef == CASE p.pt = "SAME" -> tot \div 2 [] p.pt = "VALID" -> 0 [] p.pt = "EXPLICIT" -> p.epb
             aft == CASE p.pt = "SAME" -> (tot + 1) \div 2 [] p.pt = "VALID" -> 0
-                     [] p.pt = "EXPLICIT" -> ExplicitAfter(tot, p.s, p.epb, p.epa)
+                     \* since the repair of F3 the remainder is taken from the unclamped total (k - I - pad_before)
+                     [] p.pt = "EXPLICIT" -> ExplicitAfter(IF Mutant = "explicit_after_from_clamped_total" THEN tot ELSE KD(p) - p.rl,
+                                                           p.s, p.epb, p.epa)
         IN [pb |-> bef, pa |-> aft, skb |-> bef, ska |-> tot - bef]
 
 (* Box.transform_with_strides_and_skirt, height axis, followed by the first-and-last-stripe rule of create_padding *)
@@ -112,12 +114,14 @@ CodeH(p, a, b, first, last) ==
         ne0 == b - p.wo + off
         ne1 == Min(ne0, p.I * u)
         rem == cp.skb % u
-        tstride == p.s * (ne1 - ns0 - 1)
+        \* since the repair of F4 the unclamped OFM end is used for the total stride and for the pad_bottom guard
+        neT == IF Mutant = "pad_bottom_from_clamped_end" THEN ne1 ELSE ne0
+        tstride == p.s * (neT - ns0 - 1)
         ns1 == ns0 * p.s - cp.skb + rem
         ptop0 == Max(0, 0 - ns1) + rem
         ns2 == Max(ns1, 0)
         ptop == IF Mutant = "pad_top_after_clamp" THEN Max(0, 0 - ns2) + rem ELSE ptop0
-        pbot == IF ne1 * p.s + cp.ska > p.I * u
+        pbot == IF neT * p.s + cp.ska > p.I * u
                 THEN IF u # 1 /\ ne0 > p.I * u THEN ne0 - p.I * u
                      ELSE Max(0, ns2 - ptop + tstride + KD(p) - p.I * u)
                 ELSE 0
